@@ -12,6 +12,8 @@ import (
 	"github.com/scionproto/scion/pkg/addr"
 	"github.com/scionproto/scion/pkg/slayers/path"
 	"github.com/scionproto/scion/pkg/slayers/path/onehop"
+	"github.com/scionproto/scion/pkg/snet"
+	snetpath "github.com/scionproto/scion/pkg/snet/path"
 	"verif/internal/ref"
 
 	"pgregory.net/rapid"
@@ -63,7 +65,29 @@ func runC02C07(t *testing.T, rec02, rec07 *evid.Rec) {
 			if err != nil {
 				rt.Fatalf("building packet: %v", err)
 			}
+			isEpic := false
+			if rec07 != nil && alert == "" && pc.raw.NumHops >= 2 && rapid.IntRange(0, 3).Draw(rt, "epic") == 0 {
+				// the same path as an EPIC packet: its 16 bytes in front of the path are never touched either
+				auths, err := refEpicAuths(n, pc)
+				if err != nil {
+					rt.Fatalf("reference authenticators: %v", err)
+				}
+				ep, err := snetpath.NewEPICDataplanePath(snetpath.SCION{Raw: pc.raw.Raw}, auths)
+				if err != nil {
+					rt.Fatalf("EPIC path: %v", err)
+				}
+				pkt := &snet.Packet{PacketInfo: snet.PacketInfo{Source: snet.SCIONAddress{IA: pc.src, Host: o.SrcHost}, Destination: snet.SCIONAddress{IA: pc.dst, Host: o.DstHost},
+					Path: ep, Payload: snet.UDPPayload{SrcPort: o.SrcPort, DstPort: o.DstPort, Payload: o.Payload}}}
+				if err := pkt.Serialize(); err != nil {
+					rt.Fatalf("serializing the EPIC packet: %v", err)
+				}
+				b, isEpic = append([]byte{}, pkt.Bytes...), true
+				o.WithHBH, o.WithE2E = false, false
+			}
 			w := n.Sim.Walk(pc.src, uint16(pc.p.Metadata.Interfaces[0].ID), srcUDP(o), b)
+			if isEpic && (!w.Delivered || w.DeliverIA != pc.dst) {
+				rt.Fatalf("EPIC packet %s -> %s over %v not delivered: %s\n%s", pc.src, pc.dst, metaSeq(pc.p), w.Stopped, dumpWalk(w))
+			}
 			nPaths++
 			if rec02 != nil {
 				if !w.Delivered || w.DeliverIA != pc.dst {
@@ -87,6 +111,15 @@ func runC02C07(t *testing.T, rec02, rec07 *evid.Rec) {
 					if st.Reply {
 						stepDst = pc.src // the router's answer travels back to the source
 					}
+					if isEpic {
+						// compare as the SCION-path packet it contains; the EPIC fields must be untouched
+						po := pcOff(st.In)
+						if len(st.Out) != len(st.In) || !bytes.Equal(st.In[po:po+16], st.Out[po:po+16]) {
+							rt.Fatalf("%s -> %s over %v, step %d at %s router %d: EPIC packet: length %d -> %d, packet id and hop validation fields %x -> %x", pc.src, pc.dst, metaSeq(pc.p), i, st.IA, st.Router,
+								len(st.In), len(st.Out), st.In[po:po+16], st.Out[po:min(po+16, len(st.Out))])
+						}
+						st.In, st.Out = epicAsScion(st.In), epicAsScion(st.Out)
+					}
 					if err := checkStepBytes(n, st, stepDst); err != nil {
 						rt.Fatalf("%s -> %s over %v, step %d at %s router %d: %v", pc.src, pc.dst, metaSeq(pc.p), i, st.IA, st.Router, err)
 					}
@@ -105,6 +138,9 @@ func runC02C07(t *testing.T, rec02, rec07 *evid.Rec) {
 					if o.WithHBH || o.WithE2E {
 						ls = append(ls, "step_with_extension_header")
 					}
+					if isEpic {
+						ls = append(ls, "step_epic_packet")
+					}
 					rec07.Case(xover || o.WithHBH || o.WithE2E, fmt.Sprintf("%x", st.In[:min(len(st.In), 120)]), ls...)
 				}
 				rec07.Sample(func() any {
@@ -120,6 +156,15 @@ func runC02C07(t *testing.T, rec02, rec07 *evid.Rec) {
 			rec02.Label(fmt.Sprintf("ases_%d", len(n.Sim.Order)))
 		}
 	})
+}
+
+// epicAsScion removes the 16 bytes of EPIC fields in front of the path and relabels the path type.
+func epicAsScion(b []byte) []byte {
+	po := pcOff(b)
+	out := append(append([]byte{}, b[:po]...), b[po+16:]...)
+	out[5] -= 4 // header length in 4-byte units
+	out[8] = 1  // path type SCION
+	return out
 }
 
 func pcOff(raw []byte) int {
@@ -140,12 +185,12 @@ func TestC02(t *testing.T) {
 
 func TestC07(t *testing.T) {
 	rec := evid.New("C07", "rapid: the C02 walks; every forwarding step (external, sibling or host ingress) is byte-compared: (i) differing positions must lie in {pointer byte of the path meta header, SegID bytes of the segment current on entry and on exit}; "+
-		"length unchanged; (ii) the output must equal an independent reference forwarding step written from the header specification. Non-trivial: step with a segment change or a packet carrying extension headers. "+
+		"length unchanged; (ii) the output must equal an independent reference forwarding step written from the header specification. Non-trivial: step with a segment change or a packet carrying extension headers. A quarter of the paths are sent as EPIC packets (packet id and hop validation fields must stay untouched, the rest is compared as the contained SCION-path packet). "+
 		"Also: traceroute requests with a router-alert flag on a drawn hop (routers that do not consume it must leave it untouched) and one-hop-path packets with and without extension headers over every inter-AS link "+
 		"(first router: only the SegID changes; second router: only the second hop field is filled in, with the reference MAC).")
 	defer rec.Flush(t)
 	rec.Assume("reference forwarder (ref.Forward, 70 lines) from doc/protocols/scion-header.rst; one deviation shared by combinator and router: against construction direction the SegID is updated when the packet enters the AS from outside")
-	rec.Require("step_via_ext", "step_via_sib", "step_via_host", "step_segment_change", "step_with_extension_header", "step_forward_with_unconsumed_alert", "onehop_first_router", "onehop_second_router", "onehop_with_extension_header")
+	rec.Require("step_via_ext", "step_via_sib", "step_via_host", "step_segment_change", "step_with_extension_header", "step_forward_with_unconsumed_alert", "onehop_first_router", "onehop_second_router", "onehop_with_extension_header", "step_epic_packet")
 	runC02C07(t, nil, rec)
 }
 
